@@ -17,6 +17,7 @@ import (
 	"os/exec"
 	"strings"
 	"time"
+	"unicode/utf8"
 )
 
 const jqBin = "/usr/bin/jq"
@@ -190,4 +191,30 @@ func JqOutcome(src string, input any) (string, bool) {
 		return "", false
 	}
 	return strings.Join(outs, " ; ") + " ; " + end, true
+}
+
+// JqSyntax asks jq 1.6 whether a text is a syntactically valid query body (it is compiled as the
+// body of an unused definition and never run): accepted, and whether jq could be asked at all.
+// Search support only: used to turn a lexer/parser disagreement between model and
+// implementation into a failing input.
+func JqSyntax(text string) (accepted, ok bool) {
+	if !JqAvailable() || strings.ContainsRune(text, 0) || !utf8.ValidString(text) {
+		return false, false
+	}
+	cx, cancel := context.WithTimeout(context.Background(), 5*time.Second)
+	defer cancel()
+	cmd := exec.CommandContext(cx, jqBin, "-n", "def _verif_f: "+text+"\n; 1")
+	var so, se bytes.Buffer
+	cmd.Stdout, cmd.Stderr = &so, &se
+	err := cmd.Run()
+	if cx.Err() != nil {
+		return false, false
+	}
+	if err == nil {
+		return strings.TrimSpace(so.String()) == "1", true
+	}
+	if ee, isExit := err.(*exec.ExitError); isExit && ee.ExitCode() == 3 {
+		return false, true
+	}
+	return false, false
 }
